@@ -192,6 +192,29 @@ def rule_validate(ck: Check, repo: Repo) -> None:
                                                  and isinstance(c.args[0], ast.Name) and c.args[0].id in tainted for c in ast.walk(node.test)):
                 leaves = any(isinstance(x, (ast.Raise, ast.Return)) for b in (node.body, node.orelse) for st2 in b for x in ast.walk(st2))
                 r.instance(f"{q}:guard:{ast.unparse(node.test)[:50]}", {"function": q, "test": ast.unparse(node.test)[:90], "rejects": leaves}, q)
+                # the guard REJECTS exactly when one of the checks fails: as a formula over the isinstance / all(isinstance)
+                # atoms it is equivalent to the disjunction of their negations (an `and` lets a list of strings through)
+                from ..rules import bool_formula, equivalent, atoms_of
+                names_map: dict[str, str] = {}
+
+                def _atom(text, n2):
+                    if re.fullmatch(r"isinstance\(\w+, \w+\)", text) or re.fullmatch(r"all\(\(?isinstance\((\w+), \w+\) for \1 in \w+\)?\)", text):
+                        return names_map.setdefault(text, f"ok{len(names_map)}")
+                    return None
+                try:
+                    f = bool_formula(node.test, _atom)
+                    ats = sorted(atoms_of(f))
+                except Exception:  # noqa: BLE001 - a test outside the atom language is not judged
+                    f, ats = None, []
+                raising_in_body = any(isinstance(x, ast.Raise) for st2 in node.body for x in ast.walk(st2))
+                if f is not None and ats and all(a.startswith("ok") for a in ats) and raising_in_body:
+                    want = ("not", ats[0]) if len(ats) == 1 else ("or",) + tuple(("not", a) for a in ats)
+                    w = equivalent(f, want)
+                    r.instance(f"{q}:guard-formula:{ast.unparse(node.test)[:40]}", {"atoms": {v: k for k, v in names_map.items()}, "rejects_iff_some_check_fails": w is None}, q)
+                    if w is not None:
+                        r.violation(q, f"the guard `{ast.unparse(node.test)[:70]}` does not reject every value that fails one of its checks",
+                                    f"with {w} the value is let through: `annotations = [\"x\"]` (a list, but not of tables) reaches the code"
+                                    " that treats its elements as tables - AttributeError traceback", repo.loc(node))
                 if not leaves:
                     r.violation(q, f"the type check `{ast.unparse(node.test)[:60]}` has no consequence",
                                 "neither branch raises or returns: a wrong-typed value passes the check and is iterated / indexed further"
